@@ -3,7 +3,13 @@
 // judge is TLC (spec/StreamTrace.tla on top of spec/ParseStream.tla).
 //
 // One ndjson line per history:
-//   {"f":"hist","ch":0|1,"sk":stream kind,"fa":failing offset,"text":[code points],"ev":[event,...]}
+//   {"f":"hist","ch":0|1,"sk":stream kind,"fa":failing offset,"via":0|1,"text":[code points],"ev":[event,...]}
+//   via 0: the members of detail::stream<Ch>; via 1: the free functions fcppt::parse::get_char / get_position /
+//   set_position on a fcppt::reference<basic_stream<Ch>> (what every parser uses)
+//   A history cut short by a crash / sanitizer report / hang of the code under test is completed by the crash
+//   handler: the events before the fatal call, then ,"crash":<code of the running call>,"what":"..."} - the
+//   complete prefix is judged like any other history, checks/c12.py turns the crash field into the verdict.
+//   All recorded integers are clamped to [-2^30, 2^30] (TLC integers are 32 bit).
 //   stream kinds: 0 std::basic_istringstream, 1 std::basic_stringstream (in|out), 2 a stream buffer that
 //   cannot seek, 3 a stream buffer that throws when the character at offset fa is requested
 //   (kinds 1-3 and the events 7-10 below belong to the extension round: observed only, see StreamTrace.tla)
@@ -36,9 +42,30 @@
 #include <fcppt/reference_to_base.hpp>
 #include <fcppt/either/object_impl.hpp>
 #include <fcppt/optional/object_impl.hpp>
+// Units (checks/c12.py builds with -DC12_PARSERS -DC12_EXT; if that does not compile against the tree under
+// test, without C12_EXT; if that does not compile either, the stream alone):
+//   (always)     detail::stream<Ch>, get_char / get_position / set_position (members and free functions)
+//   C12_PARSERS  literal / char_set on the stream, phrase_parse_string entry records
+//   C12_EXT      extension round, observed only: position ==, location <<, get_char_error, string parser
+#include <fcppt/parse/basic_stream_impl.hpp>
+#include <fcppt/parse/get_char.hpp>
+#include <fcppt/parse/get_position.hpp>
+#include <fcppt/parse/set_position.hpp>
+#include <fcppt/parse/location.hpp>
+#include <fcppt/parse/position.hpp>
+#include <fcppt/parse/detail/stream_impl.hpp>
+#ifdef C12_PARSERS
 #include <fcppt/parse/basic_char_set.hpp>
 #include <fcppt/parse/basic_char_set_container.hpp>
 #include <fcppt/parse/basic_literal.hpp>
+#include <fcppt/parse/error.hpp>
+#include <fcppt/parse/phrase_parse_string.hpp>
+#include <fcppt/parse/space_set.hpp>
+#include <fcppt/parse/skipper/basic_char_set.hpp>
+#include <fcppt/parse/skipper/operators/repetition.hpp>
+#include <fcppt/parse/skipper/epsilon.hpp>
+#endif
+#ifdef C12_EXT
 #include <fcppt/parse/basic_string.hpp>
 #include <fcppt/parse/get_char_error.hpp>
 #include <fcppt/parse/location_output.hpp>
@@ -46,19 +73,15 @@
 #include <fcppt/parse/location_equal.hpp>
 #include <fcppt/optional/comparison.hpp>
 #include <fcppt/output_to_string.hpp>
-#include <fcppt/parse/basic_stream_impl.hpp>
-#include <fcppt/parse/error.hpp>
-#include <fcppt/parse/location.hpp>
-#include <fcppt/parse/phrase_parse_string.hpp>
-#include <fcppt/parse/position.hpp>
-#include <fcppt/parse/detail/exception.hpp>
-#include <fcppt/parse/detail/stream_impl.hpp>
-#include <fcppt/parse/space_set.hpp>
-#include <fcppt/parse/skipper/basic_char_set.hpp>
-#include <fcppt/parse/skipper/operators/repetition.hpp>
-#include <fcppt/parse/skipper/epsilon.hpp>
+#endif
 
+#include <sys/time.h>
+#include <unistd.h>
+#if defined(__SANITIZE_ADDRESS__)
+#include <sanitizer/common_interface_defs.h>
+#endif
 #include <ios>
+#include <limits>
 #include <memory>
 #include <stdexcept>
 #include <streambuf>
@@ -70,6 +93,95 @@
 namespace
 {
 using cps_t = std::vector<long long>;
+
+// ---- recorded integers: clamped, TLC integers are 32 bit (a garbage offset / line / column / character
+// must reach the judge as a wrong value, not as a number TLC cannot read)
+constexpr long long kClamp = 1LL << 30;
+inline long long clampll(long long const v) { return v > kClamp ? kClamp : (v < -kClamp ? -kClamp : v); }
+template <typename U>
+inline long long clampu(U const v)
+{
+  return static_cast<unsigned long long>(v) > static_cast<unsigned long long>(kClamp) ? kClamp : static_cast<long long>(v);
+}
+template <typename Ch>
+inline long long code_of(Ch const c) { return clampu(static_cast<std::make_unsigned_t<Ch>>(c)); }
+
+// ---- crash / hang handling: the record under construction is completed from the handler
+namespace crash
+{
+int mode = 0;                   // 0 no record open, 1 history (prefix flushed, events in *ev), 2 entry record
+std::string const *ev = nullptr;
+volatile int op = 0;            // event code of the call being executed (0: between calls)
+char call[200] = "[0]";         // the call being executed as a script op (so that the replay can repeat it)
+volatile sig_atomic_t done = 0;
+
+void put(char const *s) { ssize_t r = ::write(vj::out_fd(), s, std::strlen(s)); (void)r; }
+
+void complete(char const *what)
+{
+  if (done != 0) return;
+  done = 1;
+  if (mode == 1)
+  {
+    if (ev != nullptr) { ssize_t r = ::write(vj::out_fd(), ev->data(), ev->size()); (void)r; }
+    char buf[96];
+    std::snprintf(buf, sizeof buf, "],\"crash\":%d,\"what\":\"%s\",\"call\":", static_cast<int>(op), what);
+    put(buf);
+    put(op != 0 ? call : "[0]");
+    put("}\n");
+  }
+  else if (mode == 2)
+  {
+    char buf[128];
+    std::snprintf(buf, sizeof buf, ",\"res\":-3,\"line\":0,\"col\":0,\"crash\":%d,\"what\":\"%s\"}\n", static_cast<int>(op), what);
+    put(buf);
+  }
+  else
+    vj::crash_line(what, 0);
+}
+void on_signal(int const sig)
+{
+  bool const hang{sig == SIGALRM || sig == SIGPROF};
+  complete(hang ? "hang" : "signal");
+  _exit(hang ? 68 : 67);
+}
+void on_terminate()
+{
+  complete("terminate");
+  _exit(67);
+}
+void on_sanitizer_death() { complete("sanitizer"); }
+
+// watchdog, re-armed for every record: 10 s of CPU time (an endless loop burns CPU whatever the load of the
+// machine is) and 300 s of wall time
+void arm()
+{
+  itimerval t{};
+  t.it_value.tv_sec = 10;
+  ::setitimer(ITIMER_PROF, &t, nullptr);
+  ::alarm(300);
+}
+// before the process winds down (leak check at exit): no watchdog any more
+void disarm()
+{
+  itimerval t{};
+  ::setitimer(ITIMER_PROF, &t, nullptr);
+  ::alarm(0);
+}
+void install()
+{
+#if defined(__SANITIZE_ADDRESS__)
+  __sanitizer_set_death_callback(on_sanitizer_death);
+#endif
+  std::set_terminate(on_terminate);
+  for (int s : {SIGSEGV, SIGBUS, SIGFPE, SIGILL, SIGABRT, SIGALRM, SIGPROF}) std::signal(s, on_signal);
+}
+struct Scope   // one record under construction
+{
+  Scope(int const m, std::string const *e) { ev = e; op = 0; mode = m; arm(); }
+  ~Scope() { mode = 0; ev = nullptr; op = 0; }
+};
+}
 
 struct Op
 {
@@ -99,11 +211,11 @@ void location_prefix(std::basic_string<Ch> const &msg, int &res, long long &line
   std::size_t i = 5;
   long long l = 0, c = 0;
   std::size_t d = 0;
-  while (i < n.size() && n[i] >= '0' && n[i] <= '9') { l = l * 10 + (n[i] - '0'); ++i; ++d; }
+  while (i < n.size() && n[i] >= '0' && n[i] <= '9') { l = clampll(l * 10 + (n[i] - '0')); ++i; ++d; }
   if (d == 0 || i >= n.size() || n[i] != ':') return;
   ++i;
   d = 0;
-  while (i < n.size() && n[i] >= '0' && n[i] <= '9') { c = c * 10 + (n[i] - '0'); ++i; ++d; }
+  while (i < n.size() && n[i] >= '0' && n[i] <= '9') { c = clampll(c * 10 + (n[i] - '0')); ++i; ++d; }
   if (d == 0 || n.compare(i, 2, ": ") != 0) return;
   res = 0;
   line = l;
@@ -177,14 +289,32 @@ struct History
   std::vector<fcppt::parse::position<Ch>> saved;
   std::string ev;
   bool first = true;
+  int via;   // 0: members of detail::stream<Ch>, 1: the free functions on a reference to basic_stream<Ch>
 
-  explicit History(cps_t const &text, int const kind = 0, long long const failat = -1)
+  explicit History(cps_t const &text, int const kind = 0, long long const failat = -1, int const _via = 0)
       : buf{make_buf<Ch>(kind, text, failat)},
         isp{make_stream<Ch>(kind, text, buf.get())},
         iss{*isp},
-        st{fcppt::make_ref(iss)}
+        st{fcppt::make_ref(iss)},
+        via{_via}
   {
     iss.unsetf(std::ios_base::skipws);
+  }
+
+  fcppt::optional::object<Ch> do_get_char()
+  {
+    return via == 0 ? st.get_char() : fcppt::parse::get_char(ref());
+  }
+  fcppt::parse::position<Ch> do_get_position()
+  {
+    return via == 0 ? st.get_position() : fcppt::parse::get_position(ref());
+  }
+  void do_set_position(fcppt::parse::position<Ch> const &_p)
+  {
+    if (via == 0)
+      st.set_position(_p);
+    else
+      fcppt::parse::set_position(ref(), _p);
   }
 
   fcppt::reference<fcppt::parse::basic_stream<Ch>> ref()
@@ -202,7 +332,16 @@ struct History
   // returns false if the op could not be driven (set_position without a saved position)
   bool run(Op const &op)
   {
-    using exc = fcppt::parse::detail::exception<Ch>;
+    // any exception is recorded as "exception" (-2): the documented one (detail::exception<Ch>) and any other
+    {
+      std::string c{"[" + std::to_string(op.k)};
+      if (op.k == 3 || op.k == 5 || op.k == 7 || op.k == 8) c += "," + std::to_string(op.a);
+      if (op.k == 7 && !op.cs.empty()) c += "," + std::to_string(op.cs[0]);
+      if (op.k == 6 || op.k == 10) c += "," + vj::arr(op.cs);
+      c += "]";
+      std::snprintf(crash::call, sizeof crash::call, "%s", c.c_str());
+    }
+    crash::op = op.k;
     switch (op.k)
     {
     case 1:
@@ -210,11 +349,11 @@ struct History
       long long r = -1;
       try
       {
-        fcppt::optional::object<Ch> const c{st.get_char()};
+        fcppt::optional::object<Ch> const c{do_get_char()};
         if (c.has_value())
-          r = static_cast<long long>(static_cast<std::make_unsigned_t<Ch>>(c.get_unsafe()));
+          r = code_of(c.get_unsafe());
       }
-      catch (exc const &)
+      catch (...)
       {
         r = -2;
       }
@@ -225,18 +364,18 @@ struct History
     {
       try
       {
-        fcppt::parse::position<Ch> const p{st.get_position()};
-        long long const off = static_cast<long long>(std::streamoff(p.pos()));
+        fcppt::parse::position<Ch> const p{do_get_position()};
+        long long const off = clampll(static_cast<long long>(std::streamoff(p.pos())));
         long long line = 0, col = 0;
         if (p.location().has_value())
         {
-          line = static_cast<long long>(p.location().get_unsafe().line().get());
-          col = static_cast<long long>(p.location().get_unsafe().column().get());
+          line = clampu(p.location().get_unsafe().line().get());
+          col = clampu(p.location().get_unsafe().column().get());
         }
         emit("[2," + std::to_string(saved.size()) + "," + std::to_string(off) + "," + std::to_string(line) + "," + std::to_string(col) + "]");
         saved.push_back(p);
       }
-      catch (exc const &)
+      catch (...)
       {
         emit("[2,-2]");
       }
@@ -248,9 +387,9 @@ struct History
       long long x = 0;
       try
       {
-        st.set_position(saved[static_cast<std::size_t>(op.a)]);
+        do_set_position(saved[static_cast<std::size_t>(op.a)]);
       }
-      catch (exc const &)
+      catch (...)
       {
         x = -2;
       }
@@ -261,6 +400,7 @@ struct History
       iss.setstate(std::ios_base::badbit);
       emit("[4]");
       return true;
+#ifdef C12_PARSERS
     case 5:
     {
       int res = 0;
@@ -274,7 +414,7 @@ struct History
         else
           location_prefix(result.get_failure_unsafe().get(), res, line, col);
       }
-      catch (exc const &)
+      catch (...)
       {
         res = -2;
       }
@@ -294,18 +434,20 @@ struct History
         if (result.has_success())
         {
           res = 1;
-          ch = static_cast<long long>(static_cast<std::make_unsigned_t<Ch>>(result.get_success_unsafe()));
+          ch = code_of(result.get_success_unsafe());
         }
         else
           location_prefix(result.get_failure_unsafe().get(), res, line, col);
       }
-      catch (exc const &)
+      catch (...)
       {
         res = -2;
       }
       emit("[6," + vj::arr(op.cs) + "," + std::to_string(res) + "," + std::to_string(line) + "," + std::to_string(col) + "," + std::to_string(ch) + "]");
       return true;
     }
+#endif
+#ifdef C12_EXT
     case 7:
     {
       if (op.a < 0 || static_cast<std::size_t>(op.a) >= saved.size() || op.cs.size() != 1U || op.cs[0] < 0 ||
@@ -340,11 +482,11 @@ struct History
       {
         auto const res{fcppt::parse::get_char_error(ref())};
         if (res.has_success())
-          r = static_cast<long long>(static_cast<std::make_unsigned_t<Ch>>(res.get_success_unsafe()));
+          r = code_of(res.get_success_unsafe());
         else
           r = res.get_failure_unsafe().get() == std::basic_string<Ch>{Ch('E'), Ch('O'), Ch('F')} ? -1 : -3;
       }
-      catch (exc const &)
+      catch (...)
       {
         r = -2;
       }
@@ -364,37 +506,43 @@ struct History
         else
           location_prefix(result.get_failure_unsafe().get(), res, line, col);
       }
-      catch (exc const &)
+      catch (...)
       {
         res = -2;
       }
       emit("[10," + vj::arr(op.cs) + "," + std::to_string(res) + "," + std::to_string(line) + "," + std::to_string(col) + "]");
       return true;
     }
+#endif
     default:
       return false;
     }
   }
 };
 
-std::string prefix(int ch, cps_t const &text, int const kind = 0, long long const failat = -1)
+std::string prefix(int ch, cps_t const &text, int const kind = 0, long long const failat = -1, int const via = 0)
 {
   return "{\"f\":\"hist\",\"ch\":" + std::to_string(ch) + ",\"sk\":" + std::to_string(kind) + ",\"fa\":" + std::to_string(failat) +
-         ",\"text\":" + vj::arr(text) + ",\"ev\":[";
+         ",\"via\":" + std::to_string(via) + ",\"text\":" + vj::arr(text) + ",\"ev\":[";
 }
 
 // The documented whitespace skipper: repetition of char_set over space_set (what
 // skipper::basic_space<Ch>() is defined as; basic_space<wchar_t>() itself does not compile
 // because it names the char alias skipper::char_set - noted in docs/notes_C12.md).
+#ifdef C12_PARSERS
 template <typename Ch>
 auto space_skipper()
 {
   return *fcppt::parse::skipper::basic_char_set<Ch>{fcppt::parse::space_set<Ch>()};
 }
+#endif
 
 cps_t const kSyms{97, 10, 32, 9};
 std::vector<cps_t> const kSets{{97, 32}, {10, 9}, {120, 121}};
 cps_t const kLits{97, 120, 10, 32};
+long long const kLitX{120};
+cps_t const kOddChar{0, 13, 255, 128, 65};
+cps_t const kOddWide{0, 13, 255, 0x20AC, 0x10FFFF};
 
 // a random call sequence, generated while it is executed (set_position needs a saved position)
 std::vector<cps_t> const kWords{{97}, {97, 32}, {10, 97}, {32, 9}, {97, 97, 10}};
@@ -404,11 +552,16 @@ std::vector<cps_t> const kWords{{97}, {97, 32}, {10, 97}, {32, 9}, {97, 97, 10}}
 template <typename Ch>
 void random_history(int ch, cps_t const &text, vj::Rng &rng, bool const ext = false)
 {
+#ifndef C12_EXT
+  if (ext) return;
+#endif
   long long const n = static_cast<long long>(text.size());
   int const kind = ext ? static_cast<int>(rng.below(4)) : 0;
   long long const failat = kind == 3 ? rng.range(0, n) : -1;
-  vj::begin_call(prefix(ch, text, kind, failat));
-  History<Ch> h{text, kind, failat};
+  int const via = static_cast<int>(rng.below(2));
+  vj::begin_call(prefix(ch, text, kind, failat, via));
+  History<Ch> h{text, kind, failat, via};
+  crash::Scope const scope{1, &h.ev};
   long long const len = rng.range(n + 2, 2 * n + 10);
   long long const bad_at = rng.below(8) == 0 ? rng.range(0, len - 1) : -1;
   for (long long i = 0; i < len; ++i)
@@ -463,13 +616,17 @@ void random_history(int ch, cps_t const &text, vj::Rng &rng, bool const ext = fa
     }
     h.run(op);
   }
+  crash::op = 0;
   vj::end_call(h.ev + "]}");
 }
 
 template <typename Ch>
 void entry_records(int ch, cps_t const &text)
 {
+#ifdef C12_PARSERS
   auto const one = [&](int kind, cps_t const &arg) {
+    crash::Scope const scope{2, nullptr};
+    crash::op = kind;
     vj::begin_call("{\"f\":\"entry\",\"ch\":" + std::to_string(ch) + ",\"kind\":" + std::to_string(kind) +
                    ",\"arg\":" + vj::arr(arg) + ",\"text\":" + vj::arr(text));
     int res = 0;
@@ -480,6 +637,8 @@ void entry_records(int ch, cps_t const &text)
       else
         location_prefix(result.get_failure_unsafe().get(), res, line, col);
     };
+    try
+    {
     if (kind == 5)
       handle(fcppt::parse::phrase_parse_string(
           fcppt::parse::basic_literal<Ch>{static_cast<Ch>(arg[0])}, to_string<Ch>(text),
@@ -492,11 +651,21 @@ void entry_records(int ch, cps_t const &text)
           fcppt::parse::basic_char_set<Ch>{std::move(set)}, to_string<Ch>(text),
           space_skipper<Ch>()));
     }
+    }
+    catch (...)
+    {
+      res = -2;   // the string entry point over a healthy std::basic_istringstream: no exception is documented
+    }
+    crash::op = 0;
     vj::end_call(",\"res\":" + std::to_string(res) + ",\"line\":" + std::to_string(line) + ",\"col\":" + std::to_string(col) + "}");
   };
   one(5, {120});
   one(5, {97});
   one(6, {120, 121});
+#else
+  (void)ch;
+  (void)text;
+#endif
 }
 
 // Compact record of one fixed-shape history (used for the exhaustive sweep over long texts):
@@ -515,17 +684,19 @@ void scan_record(int ch, cps_t const &text, std::size_t k)
   std::vector<fcppt::parse::position<Ch>> saved;
   cps_t p1, c1, p2, c2;
   int exc = 0;
+  crash::Scope const scope{0, nullptr};
+  std::size_t const bound{text.size() + 3U};   // a stream that never ends is cut off (and rejected by the judge)
   auto const pos = [&](cps_t &out, bool keep) {
     fcppt::parse::position<Ch> const p{st.get_position()};
-    out.push_back(static_cast<long long>(std::streamoff(p.pos())));
-    out.push_back(p.location().has_value() ? static_cast<long long>(p.location().get_unsafe().line().get()) : 0);
-    out.push_back(p.location().has_value() ? static_cast<long long>(p.location().get_unsafe().column().get()) : 0);
+    out.push_back(clampll(static_cast<long long>(std::streamoff(p.pos()))));
+    out.push_back(p.location().has_value() ? clampu(p.location().get_unsafe().line().get()) : 0);
+    out.push_back(p.location().has_value() ? clampu(p.location().get_unsafe().column().get()) : 0);
     if (keep) saved.push_back(p);
   };
   auto const get = [&](cps_t &out) {
     fcppt::optional::object<Ch> const c{st.get_char()};
-    out.push_back(c.has_value() ? static_cast<long long>(static_cast<std::make_unsigned_t<Ch>>(c.get_unsafe())) : -1);
-    return c.has_value();
+    out.push_back(c.has_value() ? code_of(c.get_unsafe()) : -1);
+    return c.has_value() && out.size() < bound;
   };
   try
   {
@@ -535,7 +706,7 @@ void scan_record(int ch, cps_t const &text, std::size_t k)
     st.set_position(saved.at(k < saved.size() ? k : saved.size() - 1));
     do pos(p2, false); while (get(c2));
   }
-  catch (fcppt::parse::detail::exception<Ch> const &)
+  catch (...)
   {
     exc = 1;
   }
@@ -543,11 +714,16 @@ void scan_record(int ch, cps_t const &text, std::size_t k)
 }
 
 template <typename Ch>
-void replay_script(int ch, cps_t const &text, std::vector<Op> const &ops, int const kind = 0, long long const failat = -1)
+void replay_script(int ch, cps_t const &text, std::vector<Op> const &ops, int const kind = 0, long long const failat = -1, int const via = 0)
 {
-  vj::begin_call(prefix(ch, text, kind, failat));
-  History<Ch> h{text, kind, failat};
+#ifndef C12_EXT
+  if (kind != 0) return;
+#endif
+  vj::begin_call(prefix(ch, text, kind, failat, via));
+  History<Ch> h{text, kind, failat, via};
+  crash::Scope const scope{1, &h.ev};
   for (Op const &op : ops) h.run(op);
+  crash::op = 0;
   vj::end_call(h.ev + "]}");
 }
 
@@ -571,6 +747,7 @@ try
   if (mode == "record" && argc >= 9)
   {
     vj::open(argv[2]);
+    crash::install();
     std::uint64_t const seed = std::strtoull(argv[3], nullptr, 10);
     int const maxlen = std::atoi(argv[4]);
     int const nseq = std::atoi(argv[5]);
@@ -613,6 +790,24 @@ try
       std::uint64_t const nlw = rng.below(3);
       for (long long k = 0; k < len; ++k)
         text.push_back(rng.below(4) <= nlw ? 10 : kSyms[rng.below(4)]);
+      if (rng.coin())
+      {
+        // other code units as well ("for every input text"): NUL, CR, the largest and a negative char value,
+        // for wchar_t values beyond one byte (not WEOF, which no std stream can deliver)
+        cps_t wide{text};
+        for (long long k = 0; k < len; ++k)
+          if (rng.below(3) == 0)
+          {
+            std::uint64_t const w = rng.below(5);
+            text[static_cast<std::size_t>(k)] = kOddChar[w];
+            wide[static_cast<std::size_t>(k)] = kOddWide[w];
+          }
+        random_history<char>(0, text, rng);
+        random_history<wchar_t>(1, wide, rng);
+        entry_records<char>(0, text);
+        entry_records<wchar_t>(1, wide);
+        continue;
+      }
       random_history<char>(0, text, rng);
       random_history<wchar_t>(1, text, rng);
       random_history<char>(0, text, rng, true);
@@ -620,6 +815,20 @@ try
       entry_records<char>(0, text);
       entry_records<wchar_t>(1, text);
     }
+    // long lines and many lines: two texts per shard and character type (lines > 255 characters, > 255 lines)
+    for (int i = 0; i < 2; ++i)
+    {
+      long long const len = rng.range(300, 420);
+      cps_t text;
+      for (long long k = 0; k < len; ++k)
+        text.push_back(i == 0 ? (k + 30 >= len && rng.below(6) == 0 ? 10 : kSyms[(rng.below(3) + 2U) % 4U])   // one long line
+                              : (rng.below(8) == 0 ? 97 : 10));                                               // > 255 lines
+      // (the compact fixed-shape record: judging a long event-by-event history costs TLC minutes)
+      std::size_t const k = static_cast<std::size_t>(rng.below(static_cast<std::uint64_t>(len) + 1U));
+      scan_record<char>(0, text, k);
+      scan_record<wchar_t>(1, text, k);
+    }
+    crash::disarm();
     vj::close();
     return 0;
   }
@@ -627,6 +836,7 @@ try
   {
     // scan OUT SEED MINLEN MAXLEN SHARD NSHARDS [CHMASK]
     vj::open(argv[2]);
+    crash::install();
     std::uint64_t const seed = std::strtoull(argv[3], nullptr, 10);
     int const minlen = std::atoi(argv[4]);
     int const maxlen = std::atoi(argv[5]);
@@ -645,12 +855,15 @@ try
         if ((chmask & 2) != 0) scan_record<wchar_t>(1, text, k);
       }
     }
+    crash::disarm();
     vj::close();
     return 0;
   }
   if (mode == "replay" && argc >= 4)
   {
     vj::open(argv[3]);
+    crash::install();
+    unsigned long nscript = 0;
     for (std::string const &l : vj::read_lines(argv[2]))
     {
       vj::VP const v{vj::parse(l)};
@@ -682,9 +895,14 @@ try
       }
       int const kind = static_cast<int>(v->num_or("sk", 0));
       long long const failat = v->num_or("fa", -1);
-      if ((chmask & 1) != 0) replay_script<char>(0, text, ops, kind, failat);
-      if ((chmask & 2) != 0) replay_script<wchar_t>(1, text, ops, kind, failat);
+      // "via" of the script (replay of a saved history) or alternating with the script index: each script runs
+      // through the members on one character type and through the free functions on the other
+      int const via = static_cast<int>(v->num_or("via", static_cast<long long>(nscript % 2U)));
+      ++nscript;
+      if ((chmask & 1) != 0) replay_script<char>(0, text, ops, kind, failat, via);
+      if ((chmask & 2) != 0) replay_script<wchar_t>(1, text, ops, kind, failat, v->has("via") ? via : 1 - via);
     }
+    crash::disarm();
     vj::close();
     return 0;
   }
